@@ -91,6 +91,77 @@ def r08_5(chk, tier, units=('core', 'reflect')):
                         fn['n'], A.callee_name(call) if call else '?', d.get('n'), d.get('l')), None, fn['q'])
     chk.require(n >= 20, 'R08.5: only %d outcome locals found' % n)
 
+RESET_UNITS = ('core', 'cbor', 'msgpack', 'ubjson', 'bson', 'csv')
+_GROW = {'push_back', 'emplace_back', 'insert', 'append', 'emplace', 'push', 'try_emplace'}
+_SHRINK = {'pop_back', 'pop', 'erase'}
+_REINIT = {'clear', 'resize', 'assign', 'reserve', 'swap', 'flush'}
+
+def _member_writes(fn):
+    """{member of *this: set of kinds of write ('assign', 'step', 'grow', 'shrink')} in the body of fn."""
+    def member(e):
+        e2 = A.strip(e, casts=True)
+        if e2 is not None and e2.get('k') == 'MemberExpr' and (A.strip(e2.get('base')) or {}).get('k') == 'CXXThisExpr': return e2.get('n')
+        return None
+    K = {}
+    for x in A.walk_no_lambda(fn['body']):
+        k = x.get('k'); m = None; kind = None
+        if k in ('BinaryOperator', 'CompoundAssignOperator') and x.get('op', '').endswith('=') and x.get('op') not in ('==', '!=', '<=', '>='):
+            m = member(x.get('lhs')); kind = 'assign' if x.get('op') == '=' else 'step'
+        elif k == 'UnaryOperator' and x.get('op') in ('++', '--'):
+            m = member(x.get('sub')); kind = 'step'
+        elif k == 'CXXMemberCallExpr' and A.callee_name(x) in _GROW | _SHRINK | _REINIT:
+            m = member(x.get('obj')); cn = A.callee_name(x)
+            kind = 'grow' if cn in _GROW else ('shrink' if cn in _SHRINK else 'assign')
+        elif k == 'CXXOperatorCallExpr' and x.get('oop') in ('=', '+=', '-=', '++', '--') and x.get('args'):
+            m = member(x['args'][0]); kind = 'assign' if x.get('oop') == '=' else 'step'
+        if m: K.setdefault(m, set()).add(kind)
+    return K
+
+def r08_6(chk, tier, units=RESET_UNITS, floor=30):
+    """reset() empties everything that accumulates while a document is written or read."""
+    chk.rule('R08.6', 'reset completeness: in every class with a parameterless reset(), a member that only accumulates outside the constructors and '
+                      'reset - a container that is grown (push_back/emplace/insert/append) or a counter that is stepped (++/--/+=) and is never '
+                      'assigned or cleared by the other member functions - is assigned or cleared by reset() or a member function it calls; '
+                      'otherwise a reused encoder or parser carries entries of the previous document into the next one', floor=floor)
+    n = 0
+    for unit in units:
+        facts = F.load([unit], tier)
+        if unit not in chk.units: chk.units.append(unit)
+        classes = {}
+        for f in facts.functions:
+            if f.get('body') is None or f.get('dep') or not f.get('cls') or not f['file'].startswith('include/'): continue
+            classes.setdefault(A.strip_targs(f['cls']), []).append(f)
+        for cls, fns in sorted(classes.items()):
+            fns = U.one_per_inst(fns)
+            resets = [f for f in fns if f['n'] == 'reset' and not f['params']]
+            if not resets: continue
+            byname = {}
+            for f in fns: byname.setdefault(f['n'], []).append(f)
+            def closure(f, seen):
+                w = set(_member_writes(f))
+                for c in A.calls_in(f['body'], no_lambda=True):
+                    if c.get('k') == 'CXXMemberCallExpr' and (A.strip(c.get('obj')) or {}).get('k') == 'CXXThisExpr':
+                        for g_ in byname.get(A.callee_name(c), []):
+                            if id(g_) not in seen: seen.add(id(g_)); w |= closure(g_, seen)
+                return w
+            restored = closure(resets[0], {id(resets[0])})
+            kinds = {}; where = {}
+            for f in fns:
+                if f.get('fk') in ('CXXConstructor', 'CXXDestructor') or f['n'] == 'reset' or f['n'].startswith('operator'): continue
+                for m, ks in _member_writes(f).items():
+                    kinds.setdefault(m, set()).update(ks); where.setdefault(m, f)
+            chk.analysed(resets[0])
+            short = cls.split('::')[-1]
+            for m in sorted(kinds):
+                if 'assign' in kinds[m] or not ({'grow', 'step'} & kinds[m]): continue
+                n += 1
+                site = '%s %s reset() ~ %s' % (resets[0]['file'], short, m)
+                if m in restored: chk.ok('R08.6', site, {'class': short, 'member': m, 'accumulates_by': sorted(kinds[m])})
+                else:
+                    chk.fail('R08.6', site, resets[0]['file'], resets[0]['l'], '%s::reset() leaves `%s` as it is, while %s (and no member function other than the constructors) only ever %s it: '
+                             'what the previous document put there is still in it when the object is used again' % (short, m, where[m]['n'], 'grows' if 'grow' in kinds[m] else 'steps'), None, resets[0]['q'])
+    chk.require(n >= floor, 'R08.6: only %d accumulating members found in classes with reset()' % n)
+
 def run(chk, tier, only_rule=None):
     chk.explanation = EXPLANATION
     chk.not_decided = NOT_DECIDED
@@ -163,6 +234,7 @@ def run(chk, tier, only_rule=None):
     c06.r06_6(chk, tier)
     r08_4(chk, tier)
     r08_5(chk, tier)
+    r08_6(chk, tier)
     # the JSON encoders copy a string tagged noesc without looking at it: what they emit is well-formed only if the parser gives that tag
     # to strings without escapes and to no other (R01.9)
     from . import c01
